@@ -10,7 +10,7 @@ META = {
     "explanation": "Decides: nothing ever removes a class record or a union-find entry (T1, with a positive control that the matcher sees "
                    "removal calls on the other e-graph containers); the slot set has one writer whose value is an intersection (T2 = C01.R2); "
                    "each progress field is computed from its documented source (T3); canonicalising a (possibly stale) handle uses the "
-                   "partial composition (T4); path compression combines old edge and recursive result (T5 = C08.W2).",
+                   "partial composition (T4); path compression combines old edge and recursive result (T5 = C08.W2). T6-T9: every return path of the find family composes the stored edge; a group reconstruction keeps the old generators and covers every level (G2/G3/G8 shared); id-carrying state census of EGraph/EClass; after a shrink the leader union restarts from the canonicalising entry (no stale handles).",
     "not_decided": "monotonicity of the equality relation over time as a behavioural fact",
     "assumptions": [],
 }
